@@ -57,6 +57,12 @@ impl<const BUFFER_SIZE: usize, const MAX_STREAMS: usize> Chan<BUFFER_SIZE, MAX_S
     }
     /// `used_streams().iter().take_while(|id| id != u32::MAX).map(|id| queue[id].len()).max().unwrap_or(0)` (R19; the live list IS the live set up to the first
     /// sentinel: Inv_SM, units streams_bookkeeping); bounded by the listener queues' capacity
+    /// the maximum over ALL MAX_STREAMS listener queues, whether their stream is live or not (a dropped listener may have left events behind)
+    #[verifier::external_body]
+    pub fn longest_queue_overall(&self) -> (r: usize)
+        requires self.wf(),
+        ensures forall|j: int| 0 <= j < MAX_STREAMS ==> (#[trigger] self.queues@[j]).len() <= r, exists|j: int| 0 <= j < MAX_STREAMS && (#[trigger] self.queues@[j]).len() == r, r <= BUFFER_SIZE,
+    { unimplemented!() }
     #[verifier::external_body]
     pub fn longest_live_queue(&self) -> (r: usize)
         requires self.wf(),
@@ -195,13 +201,37 @@ LONGEST_CHAIN = Rule("R19-longest-live-queue",
                      note="the iterator chain over the live list (take_while not sentinel / map queue length / max / unwrap_or 0) -> longest_live_queue (Verus has no iterator adapters)")
 
 
+ALL_QUEUES_CHAIN = Rule("R19-longest-queue-overall",
+                        r"self\.(?:channels|dispatcher_managers|receivers|senders)\.iter\(\)\s*\.map\(\|(\w+)\| \1\.(?:available_elements_count|len)\(\)\)\s*\.max\(\)\.unwrap_or\(0\)",
+                        "self.longest_queue_overall()", min=0,
+                        note="an iterator chain over ALL listener queues (live or vacant) -> longest_queue_overall")
+
+
+class EitherChain(Rule):
+    """exactly one of the two recognised shapes of the pending-count chain must be present (else: undecided, contract needs review)"""
+
+    def __init__(self):
+        Rule.__init__(self, "R19-pending-chain", "", "", count=1, note="pending-count iterator chain -> its meaning")
+
+    def apply(self, text, where, log):
+        n = 0
+        for r in (LONGEST_CHAIN, ALL_QUEUES_CHAIN):
+            new, k = re.subn(r.pattern, r.repl, text, flags=r.flags)
+            if k:
+                log[r.rid] = log.get(r.rid, 0) + k
+                text, n = new, n + k
+        if n != 1:
+            raise Undecided(f"rewrite rule {self.rid} applied {n}x in {where}, expected 1x -- the code's shape changed; contract needs review")
+        return text
+
+
 def pending_fn(file, struct):
     impl_common = r"ChannelCommon\s*<[^{]*?>\s*for\s+%s\s*<[^{]*(?=\{)" % struct
     # C06 / C20: what flush / close poll is determined by the listener queues ALONE (whatever else is going on -- e.g. a suspended send_with_async -- must
     # not make a flush wait): the longest live listener queue
-    f = FnSpec(file, "pending_items_count", impl=impl_common, props=["C06", "C20", "C03"],
+    f = FnSpec(file, "pending_items_count", impl=impl_common, props=["C06", "C20", "C03", "C07"],
                sig="pub fn pending_items_count(&self) -> (r: u32)", sig_anchor=r"fn pending_items_count\(&self\) -> u32",
-               rules=[LONGEST_CHAIN], requires="self.wf()", ensures="self.is_longest(r as int)")
+               rules=[EitherChain()], requires="self.wf()", ensures="self.is_longest(r as int)")
     f.container = "impl<const BUFFER_SIZE: usize, const MAX_STREAMS: usize> Chan<BUFFER_SIZE, MAX_STREAMS>"
     return f
 
@@ -320,6 +350,12 @@ impl<const BUFFER_SIZE: usize, const MAX_STREAMS: usize> Chan<BUFFER_SIZE, MAX_S
     }
     /// `used_streams().iter().take_while(|id| id != u32::MAX).map(|id| queue[id].len()).max().unwrap_or(0)` (R19; the live list IS the live set up to the first
     /// sentinel: Inv_SM, units streams_bookkeeping); bounded by the listener queues' capacity
+    /// the maximum over ALL MAX_STREAMS listener queues, whether their stream is live or not (a dropped listener may have left events behind)
+    #[verifier::external_body]
+    pub fn longest_queue_overall(&self) -> (r: usize)
+        requires self.wf(),
+        ensures forall|j: int| 0 <= j < MAX_STREAMS ==> (#[trigger] self.queues@[j]).len() <= r, exists|j: int| 0 <= j < MAX_STREAMS && (#[trigger] self.queues@[j]).len() == r, r <= BUFFER_SIZE,
+    { unimplemented!() }
     #[verifier::external_body]
     pub fn longest_live_queue(&self) -> (r: usize)
         requires self.wf(),
